@@ -212,7 +212,12 @@ fn translate(h: &H, idx: u64, rng: &mut Rng) {
     let pipeline_inv = pipeline && rng.chance(0.4);
     let mut globals: Vec<(String, String)> = Vec::new();
     if pipeline && rng.chance(0.5) {
-        match rng.below(4) {
+        match rng.below(6) {
+            4 => globals.push(("k".into(), "0.9996".into())),
+            5 => {
+                globals.push(("k".into(), "0.9992".into()));
+                globals.push(("x_0".into(), "500000".into()));
+            }
             0 => globals.push(("ellps".into(), rng.pick(&["GRS80", "intl", "krass"]).to_string())),
             1 => {
                 globals.push(("a".into(), "6377397.155".into()));
